@@ -47,6 +47,9 @@ type Interp struct {
 	MaxSteps int
 	depth    int
 
+	brkLabel  string // label of a pending labelled break/continue
+	nextLabel string // label of the statement about to be executed
+
 	execs      []Exec
 	parsed     []string
 	tmpls      []*template.Template
@@ -189,7 +192,8 @@ func (it *Interp) Call(f *Func, args []Value) ([]Value, error) {
 		e.root = e
 		info := f.decl.pkg.TypesInfo
 		if fd.Recv != nil && len(fd.Recv.List) == 1 && len(fd.Recv.List[0].Names) == 1 {
-			e.define(info.Defs[fd.Recv.List[0].Names[0]], f.Recv)
+			rn := fd.Recv.List[0].Names[0]
+			e.define(info.Defs[rn], it.byValue(info.TypeOf(rn), f.Recv))
 		}
 		return it.callBody(e, fd.Type, fd.Body, args, f.Name)
 	case f.lit != nil:
@@ -247,7 +251,7 @@ func (it *Interp) callBody(e *env, ft *ast.FuncType, body *ast.BlockStmt, args [
 			return nil, &EvalError{Msg: fmt.Sprintf("call of %s with %d arguments", name, len(args))}
 		}
 		if p != nil {
-			e.define(info.Defs[p], v)
+			e.define(info.Defs[p], it.byValue(info.TypeOf(p), v))
 		}
 	}
 	nres := 0
@@ -275,7 +279,24 @@ func (it *Interp) callBody(e *env, ft *ast.FuncType, body *ast.BlockStmt, args [
 		return nil, err
 	}
 	if c == ctlReturn {
-		if len(vals) == 0 && len(e.results) > 0 {
+		if ft.Results != nil && len(e.results) == 0 {
+			k := 0
+			for _, f := range ft.Results.List {
+				n := len(f.Names)
+				if n == 0 {
+					n = 1
+				}
+				for j := 0; j < n; j++ {
+					if k < len(vals) {
+						vals[k] = it.byValue(info.TypeOf(f.Type), vals[k])
+					}
+					k++
+				}
+			}
+		}
+		if len(e.results) > 0 {
+			// named results: what the return statement stored there, as deferred functions left it
+			vals = vals[:0]
 			for _, o := range e.results {
 				vals = append(vals, e.vars[o].v)
 			}
@@ -385,7 +406,7 @@ func (it *Interp) exec(e *env, s ast.Stmt) (ctl, []Value, error) {
 			}
 			for i, n := range vs.Names {
 				if i < len(vals) {
-					e.define(info.Defs[n], vals[i])
+					e.define(info.Defs[n], it.byValue(info.TypeOf(n), vals[i]))
 				} else {
 					e.define(info.Defs[n], it.zero(info.TypeOf(n)))
 				}
@@ -460,6 +481,8 @@ func (it *Interp) exec(e *env, s ast.Stmt) (ctl, []Value, error) {
 		}
 		return ctlNone, nil, nil
 	case *ast.ForStmt:
+		myLabel := it.nextLabel
+		it.nextLabel = ""
 		fe := it.child(e)
 		if x.Init != nil {
 			if _, _, err := it.exec(fe, x.Init); err != nil {
@@ -484,6 +507,12 @@ func (it *Interp) exec(e *env, s ast.Stmt) (ctl, []Value, error) {
 			if err != nil {
 				return 0, nil, err
 			}
+			if (c == ctlBreak || c == ctlContinue) && it.brkLabel != "" {
+				if it.brkLabel != myLabel {
+					return c, nil, nil // for an enclosing loop
+				}
+				it.brkLabel = ""
+			}
 			if c == ctlBreak {
 				break
 			}
@@ -501,7 +530,10 @@ func (it *Interp) exec(e *env, s ast.Stmt) (ctl, []Value, error) {
 		return it.execRange(e, x)
 	case *ast.BranchStmt:
 		if x.Label != nil {
-			return 0, nil, it.errAt(e, s, "labelled %s is not supported", x.Tok)
+			if x.Tok != token.BREAK && x.Tok != token.CONTINUE {
+				return 0, nil, it.errAt(e, s, "%s to a label is not supported", x.Tok)
+			}
+			it.brkLabel = x.Label.Name
 		}
 		switch x.Tok {
 		case token.BREAK:
@@ -533,12 +565,15 @@ func (it *Interp) exec(e *env, s ast.Stmt) (ctl, []Value, error) {
 		})
 		return ctlNone, nil, nil
 	case *ast.LabeledStmt:
+		it.nextLabel = x.Label.Name
 		return it.exec(e, x.Stmt)
 	}
 	return 0, nil, it.errAt(e, s, "statement %T is not supported", s)
 }
 
 func (it *Interp) execRange(e *env, x *ast.RangeStmt) (ctl, []Value, error) {
+	myLabel := it.nextLabel
+	it.nextLabel = ""
 	info := e.pkg.TypesInfo
 	coll, err := it.eval(e, x.X)
 	if err != nil {
@@ -590,12 +625,21 @@ func (it *Interp) execRange(e *env, x *ast.RangeStmt) (ctl, []Value, error) {
 		if err := bind(x.Key, item.k); err != nil {
 			return 0, nil, err
 		}
+		if x.Value != nil {
+			item.v = it.byValue(info.TypeOf(x.Value), item.v)
+		}
 		if err := bind(x.Value, item.v); err != nil {
 			return 0, nil, err
 		}
 		c, v, err := it.execBlock(le, x.Body.List)
 		if err != nil {
 			return 0, nil, err
+		}
+		if (c == ctlBreak || c == ctlContinue) && it.brkLabel != "" {
+			if it.brkLabel != myLabel {
+				return c, nil, nil
+			}
+			it.brkLabel = ""
 		}
 		if c == ctlBreak {
 			break
@@ -657,7 +701,7 @@ func (it *Interp) runClause(e *env, body []ast.Stmt) (ctl, []Value, error) {
 		}
 	}
 	c, v, err := it.execBlock(it.child(e), body)
-	if c == ctlBreak {
+	if c == ctlBreak && it.brkLabel == "" {
 		c = ctlNone
 	}
 	return c, v, err
@@ -771,6 +815,15 @@ func (it *Interp) assign(e *env, x *ast.AssignStmt) error {
 	if len(vals) != len(x.Lhs) {
 		return it.errAt(e, x, "assignment of %d values to %d places", len(vals), len(x.Lhs))
 	}
+	if len(x.Rhs) == len(x.Lhs) {
+		for i, r := range x.Rhs {
+			vals[i] = it.byValue(info.TypeOf(r), vals[i])
+		}
+	} else if tup, ok := info.TypeOf(x.Rhs[0]).(*types.Tuple); ok && tup.Len() == len(vals) {
+		for i := range vals {
+			vals[i] = it.byValue(tup.At(i).Type(), vals[i])
+		}
+	}
 	for i, l := range x.Lhs {
 		if id, ok := l.(*ast.Ident); ok {
 			if id.Name == "_" {
@@ -879,6 +932,43 @@ func (it *Interp) store(e *env, l ast.Expr, v Value) error {
 		return it.errAt(e, l, "assignment through a pointer to %s", Show(base))
 	}
 	return it.errAt(e, l, "assignment to %T is not supported", l)
+}
+
+// byValue gives v the value semantics of its static type t: a struct (or array) value is copied when it is
+// assigned, passed or returned; everything else (pointers, maps, slices, interfaces) is shared.
+func (it *Interp) byValue(t types.Type, v Value) Value {
+	if t == nil || v == nil {
+		return v
+	}
+	switch u := t.Underlying().(type) {
+	case *types.Struct:
+		o, ok := v.(map[string]any)
+		if !ok {
+			return v
+		}
+		c := make(map[string]any, len(o))
+		for k, x := range o {
+			c[k] = x
+		}
+		for i := 0; i < u.NumFields(); i++ {
+			f := u.Field(i)
+			if x, ok := c[f.Name()]; ok {
+				c[f.Name()] = it.byValue(f.Type(), x)
+			}
+		}
+		return c
+	case *types.Array:
+		xs, ok := v.([]any)
+		if !ok {
+			return v
+		}
+		c := make([]any, len(xs))
+		for i, x := range xs {
+			c[i] = it.byValue(u.Elem(), x)
+		}
+		return c
+	}
+	return v
 }
 
 // zero value of a type.
@@ -1392,14 +1482,14 @@ func (it *Interp) composite(e *env, y *ast.CompositeLit) (Value, error) {
 				if err != nil {
 					return nil, err
 				}
-				o[kv.Key.(*ast.Ident).Name] = v
+				o[kv.Key.(*ast.Ident).Name] = it.byValue(info.TypeOf(kv.Value), v)
 				continue
 			}
 			v, err := it.eval(e, el)
 			if err != nil {
 				return nil, err
 			}
-			o[u.Field(i).Name()] = v
+			o[u.Field(i).Name()] = it.byValue(u.Field(i).Type(), v)
 		}
 		for i := 0; i < u.NumFields(); i++ {
 			f := u.Field(i)
@@ -1418,7 +1508,7 @@ func (it *Interp) composite(e *env, y *ast.CompositeLit) (Value, error) {
 			if err != nil {
 				return nil, err
 			}
-			out = append(out, v)
+			out = append(out, it.byValue(elemOf(u), v))
 		}
 		return out, nil
 	case *types.Map:
@@ -1441,6 +1531,16 @@ func (it *Interp) composite(e *env, y *ast.CompositeLit) (Value, error) {
 		return m, nil
 	}
 	return nil, it.errAt(e, y, "composite literal of %s", t)
+}
+
+func elemOf(t types.Type) types.Type {
+	switch u := t.(type) {
+	case *types.Slice:
+		return u.Elem()
+	case *types.Array:
+		return u.Elem()
+	}
+	return nil
 }
 
 func (it *Interp) evalElt(e *env, x ast.Expr) (Value, error) {
